@@ -90,6 +90,7 @@ class ProcSim:
         self.max_sim_time = 0
         self.by_thread = {}
         self.harness_error = None
+        self.procs = []
 
     # ----------------------------------------------------------------- plumbing
     def attach_main(self):
@@ -274,6 +275,20 @@ class ProcSim:
             if part.thread.is_alive():
                 self.stats["leaked_threads"] += 1
 
+    def interpreter_exit(self):
+        """What multiprocessing's atexit handler does when the calling process exits while
+        the map is still referenced: terminate daemonic children, then join every child.
+        A live non-daemonic worker blocked in task_queue.get() is joined for ever."""
+        me = self.me()
+        self.log.add(self.steps, self.now, me.name, "interpreter_exit")
+        live = [pr for pr in self.procs if pr.is_alive()]
+        for pr in live:
+            if pr.daemon:
+                self.kill(pr.part)
+        for pr in live:
+            if pr.is_alive():
+                pr.join()
+
     def shutdown(self):
         """End of a run: stop every simulated process that is still alive."""
         self.closed = True
@@ -415,6 +430,7 @@ class SimProcess:
         self.part = _Part(f"W{n}")
         self.name = name or self.part.name
         sim.parts.append(self.part)
+        sim.procs.append(self)
         self.pid = None
 
     def start(self):
